@@ -40,7 +40,7 @@ class ExportConfigC(ExportConfig):
     
     def _parse_scalar(self, param, value):
         if isinstance(param, StringType):
-            value = f"\"{value}\""
+            value = f"\"{self._escape(value)}\""
         elif isinstance(param, BooleanType):
             value = "true" if value else "false"
         elif isinstance(param, IntegerType):
@@ -74,7 +74,7 @@ class ExportConfigC(ExportConfig):
         if param.value is None:
             value = ''
         elif isinstance(param, StringType):
-            value = "\""+str(param.value)+"\""
+            value = "\""+self._escape(param.value)+"\""
         elif isinstance(param, BooleanType):
             value = 1 if param.value else 0
         else:
